@@ -46,7 +46,7 @@ def strategy(draw, tier="quick"):
     na = draw(st.sampled_from([1, 2, 3, 8, 9, 10, 11, 12, 40]))
     if fmt in ("mdcrd", "crd") and na == 1:
         na = 2     # a one-atom mdcrd frame is indistinguishable from a box line: inherent format ambiguity
-    cell = draw(st.sampled_from([None, "ortho", "ortho", "tric", "vary", "vary-tric"]))
+    cell = draw(st.sampled_from([None, "ortho", "ortho", "tric", "vary", "vary-tric", "ortho-then-tric", "tric-then-ortho"]))
     cap = CAP[fmt]
     if cap.get("need_cell") and cell is None:
         cell = "ortho"
@@ -82,6 +82,13 @@ def build(case):
         A = np.tile([90.0, 90.0, 90.0], (nf, 1))
         if case["cell"] in ("tric", "vary-tric"):
             A = np.tile([70.0, 80.0, 100.0], (nf, 1))
+        if case["cell"] in ("ortho-then-tric", "tric-then-ortho"):
+            # the box style changes during the trajectory (a box sheared, or relaxed to rectangular, during the run)
+            skew = np.array([70.0, 80.0, 100.0])
+            for f in range(nf):
+                tric_here = (f > 0) if case["cell"] == "ortho-then-tric" else (f < nf - 1 or nf == 1)
+                if tric_here:
+                    A[f] = skew + f
         if case["cell"].startswith("vary"):
             L = L * (1 + 0.05 * np.arange(nf))[:, None]
             if case["cell"] == "vary-tric":
@@ -120,7 +127,7 @@ def representable(fmt, case, tr):
     xa = float(np.abs(tr.xyz).max()) * 10
     neg = float(tr.xyz.min()) * 10
     if fmt in ("mdcrd", "crd"):
-        if case["cell"] in ("tric", "vary-tric"):
+        if case["cell"] in ("tric", "vary-tric", "ortho-then-tric", "tric-then-ortho"):
             return False
         if neg <= -999.9995 or xa >= 9999.9995:
             return False
@@ -232,6 +239,8 @@ def run_case(case):
             if rep:
                 viol.append(("%s/independent-reader-failed" % fmt, "%s: %s" % (type(e).__name__, str(e)[:200])))
     nontrivial = nf >= 2 and case["cell"] is not None and (case["cell"] != "ortho" or xmax > 100 or na in (9, 10))
+    if case["cell"] in ("ortho-then-tric", "tric-then-ortho") and nf >= 2:
+        labels.append("box-style-changes")
     return {"viol": viol, "labels": labels, "nontrivial": bool(nontrivial)}
 
 
